@@ -366,9 +366,20 @@ func cmdCheck(repo, verif, prop, tier string, timeoutMs int, verbose bool) int {
 	}
 	// vanished obligations: in the baseline but no longer generated
 	if base != nil {
+		// Only a contract clause that is no longer checked anywhere counts: obligations are grouped by function and
+		// clause (return and site ordinals stripped), and only the kinds that carry a stated clause are considered
+		// (post, atcall, invariants, lemmas, interface implementation). Fewer safety, frame or call-precondition
+		// obligations (a removed statement, a merged return) are not a violation of anything.
+		seenGroup := map[string]bool{}
+		for n := range seen {
+			seenGroup[oblGroup(n)] = true
+		}
 		var gone []string
+		goneGroup := map[string]bool{}
 		for n := range base {
-			if !seen[n] {
+			g := oblGroup(n)
+			if !seen[n] && !seenGroup[g] && !goneGroup[g] && clauseKind(n) {
+				goneGroup[g] = true
 				gone = append(gone, n)
 			}
 		}
@@ -377,7 +388,7 @@ func cmdCheck(repo, verif, prop, tier string, timeoutMs int, verbose bool) int {
 			if _, isKnown := openByObl[n]; isKnown {
 				continue
 			}
-			emitViolation(n, fmt.Sprintf("obligation %s is in the committed baseline but is no longer generated (contract stale: function, clause or site vanished)\n", n), true)
+			emitViolation(n, fmt.Sprintf("obligation %s is in the committed baseline but no obligation of its clause is generated any more (contract stale: function, clause or site vanished)\n", n), true)
 		}
 	}
 	for _, iv := range cr.immutableViolations {
@@ -606,3 +617,36 @@ func cmdBaseline(repo, verif, prop string, all bool, timeoutMs int) int {
 }
 
 func cmdSelftest(verif, only string, verbose bool) int { return 2 }
+
+// oblGroup strips the return ordinal (@retN) and the site ordinal (#k) from an obligation name.
+func oblGroup(n string) string {
+	if i := strings.LastIndex(n, "#"); i >= 0 {
+		if _, err := strconv.Atoi(n[i+1:]); err == nil {
+			n = n[:i]
+		}
+	}
+	if i := strings.LastIndex(n, "@ret"); i >= 0 {
+		if _, err := strconv.Atoi(n[i+4:]); err == nil {
+			n = n[:i]
+		}
+	}
+	return n
+}
+
+// clauseKind: the obligation comes from a stated contract clause (not from the run-time safety sweep, a frame, or a
+// callee's precondition at a call site).
+func clauseKind(n string) bool {
+	if strings.HasPrefix(n, "lemma.") {
+		return true
+	}
+	i := strings.LastIndex(n, "/")
+	k := n[i+1:]
+	if j := strings.Index(k, ":"); j >= 0 {
+		k = k[:j]
+	}
+	switch k {
+	case "post", "atcall", "inv-init", "inv-step", "lemma", "implpre", "implpost", "stale":
+		return true
+	}
+	return false
+}
